@@ -147,7 +147,7 @@ func (p c16) run(c *core.C, cs c16Case) {
 	keyring := parseKeyring(cs.Keyring)
 	raw := model.WriteAr(cs.Members, true)
 	wantOK, wantID, why := indepVerify(cs.Members, keyring, cs.Role)
-	mustFail := cs.Fault != "none" && !strings.HasPrefix(cs.Fault, "flip:signature") && !strings.HasPrefix(cs.Fault, "keyring:signer")
+	mustFail := cs.Fault != "none" && !strings.HasPrefix(cs.Fault, "flip:signature") && !strings.HasPrefix(cs.Fault, "keyring:signer") && !strings.HasPrefix(cs.Fault, "extra-member-early:")
 	if mustFail && wantOK {
 		c.Failf("harness self-check: independent verification succeeds although fault %q was injected", cs.Fault)
 		return
@@ -437,6 +437,11 @@ func (p c16) RunBatch(t *core.T, b core.Batch) {
 			if !strings.HasPrefix(dc.Name, "control.") && !strings.HasPrefix(dc.Name, "data.") {
 				// an unrelated extra member: verification may succeed, exposure of its content may not
 				fault, tag = "none", "decoy:near-miss-name"
+				if pos < 3 {
+					// in front of debian-binary, control or data: deb(5) and dpkg-deb fix the order of the first
+					// three members, so a loader may also refuse such a package - both outcomes are fine
+					fault = "extra-member-early:" + dc.Name + fmt.Sprintf("@%d", pos)
+				}
 			}
 			p.emit(t, c16Case{Members: mm, Keyring: kr, Role: role, Fault: fault, Repeat: 40}, tag, where)
 		}
